@@ -30,6 +30,10 @@ TEMPLATES = [
     '{[#A]}.{#A=OP(=O)O}',
     '{[#A]|3}.{#A=[<@l]S(=O)(=O)CC[>@l]}',
     '{[#A][#B]}.{#A=CS(=O)[$@l],#B=[$@l]P(=O)(C)[$@l]}',
+    # heavier main-group elements, written as bracket atoms: the same rule (a siloxane chain end, a selenide, an arsine, a germane)
+    '{[#A]|3}.{#A=[<@l]O[Si](C)(C)[>@l]}',
+    '{[#A][#B]}.{#A=C[Se][$@l],#B=[$@l][As](C)[$@l]}',
+    '{[#A][#B]}.{#A=C[Ge]([$@l])[$@l],#B=[$@l]C}',
 ]
 
 
@@ -43,7 +47,7 @@ class C09(core.Prop):
                    'a string on which the resolver raises is not "resolvable": such paths are pruned and counted, not judged here',
                    'all-atom sampler outputs: the RNG stream / target exploration of C16 (<= 2-3 added fragments), judged by the valence clauses',
                    'a single-hydrogen fragment that the string gives no compatible descriptor for stays unbonded (not judged)']
-    OUTSIDE = ['hyper-valent atoms (sum of heavy-atom bond orders above every standard valence)', 'elements outside the organic subset']
+    OUTSIDE = ['hyper-valent atoms (sum of heavy-atom bond orders above every standard valence)', 'elements other than B C N O F P S Cl Br I Si Ge As Se (and Na+)']
     BOUNDS = {
         'quick': 'C01 quick cases (first rendering) + the same cases with one surplus descriptor (free kind and label) on every atom position '
                  'of the first fragment + %d templates with ambiguous/surplus descriptors, charged atoms, explicit and single hydrogens '
@@ -219,5 +223,5 @@ def valence_clauses(mol, written_h=None):
 PROP = C09()
 
 # shape families added after the first complete pass (DESIGN 8.6-8.11); appended to the bounds written into the evidence
-BOUNDS_ADDED = '; plus: P/S between two valences, every template also after pipeline.prelude and through one of pipeline.VARIANTS, sampler configurations with explicit hydrogens / supplied masses / [nH]'
+BOUNDS_ADDED = '; plus: P/S between two valences, every template also after pipeline.prelude and through one of pipeline.VARIANTS, sampler configurations with explicit hydrogens / supplied masses / [nH], Si / Ge / As / Se fragments'
 PROP.BOUNDS = {k: v + BOUNDS_ADDED for k, v in PROP.BOUNDS.items()}
